@@ -27,7 +27,8 @@ def cases(rng, tier):
     out = []
     for i in range(n):
         a = G.gen_array(rng, depth=rng.choice([1, 2, 2, 3, 3]), canonical_too=False,
-                        type_kw=dict(allow_union=False, allow_rec=False, leaf_dtypes=LEAVES))
+                        type_kw=dict(allow_union=False, allow_rec=False, leaf_dtypes=LEAVES),
+                        enc_kw=dict(strided=0.15, weird_empty=0.05))
         t = a['type']
         op = rng.choice(['sort', 'argsort'])
         mn, mx = G.list_depth(t)
